@@ -169,6 +169,7 @@ class Engine:
         self.frame_subst = [{}]
         self._model_cache = {}
         self._resolve_cache = {}
+        self._prog_caches = {}
         self.summaries = {}
         self.collect = None         # nested (summary) exploration state
         self.on_path_end = None
@@ -186,6 +187,18 @@ class Engine:
         self._capture = None
         self._pure_cache = {}
         self.path_memo = {}
+
+    def use(self, prog):
+        """switch the program (MIR of another build configuration) whose code is executed; the solver, the
+        path and all values are shared, the per-program caches are swapped"""
+        if prog is self.prog:
+            return
+        self._prog_caches[id(self.prog)] = (self._resolve_cache, self.summaries, self._const_cache, self._pure_cache)
+        self.prog = prog
+        c = self._prog_caches.get(id(prog))
+        if c is None:
+            c = ({}, {}, {}, {})
+        self._resolve_cache, self.summaries, self._const_cache, self._pure_cache = c
 
     # ------------------------------------------------------------------ symbols
     def fresh_bv(self, name, bits):
